@@ -25,7 +25,8 @@ import (
 var c17Causes = []string{"local-close", "remote-close", "idle-timeout", "transport-close", "stateless-reset", "handshake-timeout", "dial-cancel", "keepalive-then-blackhole", "idle-timeout-sending"}
 
 // blocked client calls
-var c17Calls = []string{"Read", "Write", "AcceptStream", "AcceptUniStream", "OpenStreamSync", "ReceiveDatagram"}
+// (the "#2" entries are a second concurrent caller of the same blocking call)
+var c17Calls = []string{"Read", "Write", "AcceptStream", "AcceptUniStream", "OpenStreamSync", "ReceiveDatagram", "AcceptStream#2", "AcceptUniStream#2", "OpenStreamSync#2", "ReceiveDatagram#2"}
 
 var c17Timings = []struct {
 	Name string
@@ -302,6 +303,18 @@ func c17Run(t *testing.T, cfg c17Config) c17Result {
 		}
 		if has("ReceiveDatagram") {
 			blocked("ReceiveDatagram", func() error { _, err := conn.ReceiveDatagram(context.Background()); return err })
+		}
+		if has("AcceptStream#2") {
+			blocked("AcceptStream#2", func() error { _, err := conn.AcceptStream(context.Background()); return err })
+		}
+		if has("AcceptUniStream#2") {
+			blocked("AcceptUniStream#2", func() error { _, err := conn.AcceptUniStream(context.Background()); return err })
+		}
+		if has("OpenStreamSync#2") {
+			blocked("OpenStreamSync#2", func() error { _, err := conn.OpenStreamSync(context.Background()); return err })
+		}
+		if has("ReceiveDatagram#2") {
+			blocked("ReceiveDatagram#2", func() error { _, err := conn.ReceiveDatagram(context.Background()); return err })
 		}
 		switch cfg.When {
 		case 1:
